@@ -5,8 +5,8 @@
 From Coq Require Import ZArith QArith List Bool Lia.
 Import ListNotations.
 Require Import AV.Generated.ExnOrder AV.Generated.SmppConsts AV.Generated.Handled
-               AV.Model.Base AV.Model.PyDict AV.Model.Limiter AV.Model.Correlator AV.Model.Seq AV.Model.Handlers
-               AV.Proofs.HandlersProofs AV.Proofs.OutcomeProofs AV.Proofs.ConcurrentProofs.
+               AV.Model.Base AV.Model.PyDict AV.Model.Limiter AV.Model.Correlator AV.Model.Seq AV.Model.Handlers AV.Model.SenderCancel
+               AV.Proofs.HandlersProofs AV.Proofs.OutcomeProofs AV.Proofs.ConcurrentProofs AV.Proofs.CancelProofs.
 Open Scope Z_scope.
 
 (* one segmented message of ANY number k >= 2 of segments under ANY reference, ANY admissible interleaving of its events
@@ -110,6 +110,29 @@ Theorem C01_plain_outcome :
         dget sq (c_seg (h_corr s)) = None ->
         snd (hstep s (HExpire sq)) = [HSendError (sm_log (e_msg e))]).
 Proof. split; [exact plain_outcome | exact plain_timeout]. Qed.
+
+(* the sender torn down in the middle of a message of k parts (Model/SenderCancel.v; the handler's rule is read off esme.py by the
+   translator): wherever the cancellation strikes - before or inside correlator.put() of any part -
+   (a) if the handler reports the message, then whatever the SMSC answers to the parts already recorded and whichever of them time
+       out, in any order, the correlator never produces an outcome for it: the handler's report is the only one;
+   (b) if the handler keeps quiet, every part is recorded, so C01_segmented_outcome applies to the complete message: exactly one
+       outcome once every part is answered or timed out. *)
+Theorem C01_cancelled_sender :
+  forall r log k sq uid c gs,
+  (2 <= k <= 255)%nat ->
+  (forall i j, (i < k)%nat -> (j < k)%nat -> sq i = sq j -> i = j) ->
+  (cp_index c < k)%nat ->
+  (handler_reports k c = true ->
+     ovalid k sq (fun _ => QNot) None gs -> (forall i, In (OPut i) gs -> (i < stored_parts c)%nat) ->
+     filter is_outcome (concat (hrun_each hinit (map (oconc r log k sq uid) gs))) = [])
+  /\ (handler_reports k c = false -> stored_parts c = k).
+Proof. exact cancelled_sender. Qed.
+
+(* a message that is not segmented: reported by the handler exactly when the correlator does not hold it *)
+Theorem C01_cancelled_plain :
+  forall c, cp_index c = 0%nat ->
+  (handler_reports 1 c = true /\ stored_parts c = 0%nat) \/ (handler_reports 1 c = false /\ stored_parts c = 1%nat).
+Proof. exact cancelled_plain. Qed.
 
 (* the handler with the sweep that correlator.get() runs before returning (requests that time out while a response is being
    correlated) is the plain handler when nothing times out; its behaviour with time-outs is validated against the real code *)
